@@ -257,6 +257,10 @@ func (c *Ctx) evalMod(env *SpecEnv, x ast.Expr, out *[]modEntry) {
 		}
 		// a captured variable of a function literal: its cell
 		if sa, ok := env.vars[v.Name].(SrcAddr); ok {
+			if lv, ok := sa.P.(LocV); ok && lv.Kind == LocCell {
+				// the same variable seen from the enclosing function: a heap cell
+				sa = SrcAddr{P: Scalar{lv.Base, SRef, lv.Ty}, Ty: sa.Ty}
+			}
 			if b, ok := sa.P.(Scalar); ok {
 				pt := b.Ty.Underlying().(*types.Pointer)
 				if isAggregate(pt.Elem()) {
@@ -474,7 +478,7 @@ func (c *Ctx) checkFrame(s *State, snap map[string]string, mods []modEntry, allo
 			continue
 		}
 		r := c.freshConst(s, "fr", SRef)
-		prem := []string{fmt.Sprintf("(< (rootid %s) %s)", r, allocBase), fmt.Sprintf("(not (= %s rnil))", r)}
+		prem := []string{fmt.Sprintf("(< (rootid %s) %s)", r, allocBase), fmt.Sprintf("(not (= (rootid %s) 0))", r)}
 		needIdx := false
 		for _, m := range es {
 			if m.kind == modElemAt || m.kind == modElems && m.lo != "" {
@@ -591,6 +595,45 @@ func (c *Ctx) call(s *State, fr *Frame, x *ssa.Call) []*State {
 	if cl, ok := fv.(ClosureV); ok {
 		fn := cl.Fn.(*ssa.Function)
 		return c.callStatic(s, fr, x, fn, args, cl.Bindings)
+	}
+	// seq(F$k): a range-over-func loop — loop rule with the body's contract (rangefunc.go)
+	if len(args) == 1 {
+		if cl, ok := args[0].(ClosureV); ok {
+			if pf, _ := cl.Fn.(*ssa.Function); pf != nil && pf.Synthetic == "range-over-func yield" {
+				return c.rangeFuncLoop(s, fr, x, cl, pf)
+			}
+		}
+	}
+	for _, a := range args {
+		if cl, ok := a.(ClosureV); ok && len(cl.Bindings) > 0 {
+			unsup("function literal with captured variables passed to an unknown function value (it could write them)")
+		}
+	}
+	// the yield parameter of an iterator literal: every element handed to the loop body satisfies the `elem` clauses of
+	// the function that returns this iterator (this is where those clauses are proved)
+	if prm, ok := com.Value.(*ssa.Parameter); ok && fr.fn == c.fn && c.fn.Parent() != nil && len(c.fn.Params) == 1 && prm == c.fn.Params[0] {
+		if pfc := c.eng.contractFor(c.fn.Parent()); pfc != nil && len(pfc.Elems) > 0 {
+			env := c.newSpecEnv(s, fr)
+			env.useSrc = true
+			for k, v := range c.entryEnvVars {
+				if _, ok := env.vars[k]; !ok {
+					env.vars[k] = v
+				}
+			}
+			for i, a := range args {
+				env.vars[fmt.Sprintf("arg%d", i)] = a
+			}
+			env.old = map[string]string{}
+			env.oldIsEntry = true
+			env.lets = pfc.Lets
+			for i, e := range pfc.Elems {
+				lb := e.Label
+				if lb == "" {
+					lb = fmt.Sprintf("%d", i)
+				}
+				c.obligeClauseAt(s, env, "elem", lb, e, x.Pos())
+			}
+		}
 	}
 	// unknown function value: havoc result, log the call; assumed not to write modelled state
 	c.assumptions["calls of function values do not modify the caller's modelled state"] = true
